@@ -141,7 +141,7 @@ extern "C" void h_disasm_pages()
   UtilContext u;
   u.bytes_per_address = 1; u.flags = 0; u.disasm_range = rec_range;
   unsigned start = nondet_uint(), end = nondet_uint();
-  ASSUME(start <= end && end < 0xfff00000u && (end >> 16) - (start >> 16) <= 3);
+  ASSUME(start <= end && (end >> 16) - (start >> 16) <= 3);      /* anywhere in the 32-bit space, including the last page */
   g_p0 = start >> 16; g_nc = 0; g_bad_query = 0;
   for (int i = 0; i < 4; i++) { g_inuse[i] = nondet_int() & 1; g_pmin[i] = nondet_uint() & 0xffff; g_pmax[i] = nondet_uint() & 0xffff; ASSUME(g_pmin[i] <= g_pmax[i]); }
   ASSUME(g_inuse[0] == 1);      /* callers pass the image's lowest written address: its page is in use */
